@@ -317,9 +317,15 @@ func (t *TrakBox) SetAACDescriptor(objType byte, samplingFrequency int) error {
 	}
 	ascBytes := buf.Bytes()
 	esds := CreateEsdsBox(ascBytes)
+	// The integer part of the samplerate field is 16 bits. A rate that does not fit (88200, 96000)
+	// is signaled as 0 instead of its value modulo 65536; the real rate is in the esds AudioSpecificConfig.
+	sampleRate := uint16(0)
+	if samplingFrequency >= 0 && samplingFrequency <= 0xffff {
+		sampleRate = uint16(samplingFrequency)
+	}
 	mp4a := CreateAudioSampleEntryBox("mp4a",
 		uint16(asc.ChannelConfiguration),
-		16, uint16(samplingFrequency), esds)
+		16, sampleRate, esds)
 	stsd.AddChild(mp4a)
 	return nil
 }
